@@ -230,7 +230,7 @@ def uni_data(d):
 
 UNI_X = np.concatenate([np.linspace(-30.0, 120.0, 31), [3.5, -1.0, 3.5 + 1e-9, -1.0 - 1e-9, 0.0, 1e-9, -1e-9, 1.0, 2.5],
                         5000.0 + np.array([-0.02, -0.004, 0.0, 0.003, 0.011]), 1e-9 * np.array([2.2, 2.7, 3.0, 3.2, 3.9]), [0.3, 0.1 + 0.2, 0.30000000000000002, 0.29999999999999993]])
-UNI_Q = np.array([0.001, 0.05, 0.25, 0.5, 0.75, 0.95, 0.999])
+UNI_Q = np.array([0.0, 1e-9, 0.001, 0.05, 0.25, 0.5, 0.75, 0.95, 0.999, 1 - 1e-9, 1.0])       # the end points and their neighbourhood belong to [0, 1]
 
 
 class UniBinding(Binding):
